@@ -5,8 +5,10 @@ use std::sync::Once;
 
 #[cfg(curve25519_dalek_verif)]
 pub mod field;
+pub mod edwards;
 pub mod helpers;
 pub mod scalar;
+pub mod scalarmul;
 
 /// What an executor returns before wrapping.
 pub enum Out {
@@ -42,6 +44,12 @@ fn dispatch(req: &Req) -> Out {
     let a = &req.a;
     if op.starts_with("sc.") {
         return scalar::exec(op, a);
+    }
+    if op.starts_with("ed.") {
+        return edwards::exec(op, a);
+    }
+    if op.starts_with("sm.") {
+        return scalarmul::exec(op, a);
     }
     #[cfg(curve25519_dalek_verif)]
     {
